@@ -2,7 +2,7 @@
    replayed on the real code by harness/c14.py) and inhabitation examples. *)
 From Coq Require Import ZArith List Bool NArith Lia.
 Import ListNotations.
-Require Import PV.Core.Obj PV.Core.Val PV.Core.Subst PV.Proofs.Dedup PV.Proofs.Unite PV.Proofs.UniteLaws.
+Require Import PV.Core.Obj PV.Core.Val PV.Core.Subst PV.Proofs.Dedup PV.Proofs.Unite PV.Proofs.UniteLaws PV.Proofs.SubstLaws.
 
 Definition w_int := VLeaf (LTyped c_int false).
 Definition w_str := VLeaf (LTyped c_str false).
@@ -27,6 +27,23 @@ Lemma eq_hash_refuted_unhashable_literal : ~ eq_implies_hash_eq_full_statement.
 Proof.
   intros H. specialize (H 3 w_list1 w_list2 eq_refl). vm_compute in H. discriminate.
 Qed.
+
+(* Callable[[*, k: int, l: str], int] vs the same with l declared before k *)
+Definition w_call1 := VNode (TCallable 0 [107%N; 108%N]) [w_int; w_str; w_int].
+Definition w_call2 := VNode (TCallable 0 [108%N; 107%N]) [w_str; w_int; w_int].
+
+Lemma eq_hash_refuted_kwonly_order : ~ eq_implies_hash_eq_full_statement.
+Proof.
+  intros H. specialize (H 3 w_call1 w_call2 eq_refl). vm_compute in H. discriminate.
+Qed.
+
+(* TypedDicts whose keys are declared in a different order are == and hash equal *)
+Definition w_td_xy := VNode (TTypedDict [(120%N, (true, false)); (121%N, (true, false))] false false) [VUnion [w_int; w_str]; w_int; w_str].
+Definition w_td_yx := VNode (TTypedDict [(121%N, (true, false)); (120%N, (true, false))] false false) [VUnion [w_str; w_int]; w_str; w_int].
+
+Lemma typeddict_key_order_consistent :
+  veq w_td_xy w_td_yx = true /\ heq w_td_xy w_td_yx = true /\ unite [w_td_xy; w_td_yx] = w_td_xy.
+Proof. vm_compute. repeat split; reflexivity. Qed.
 
 (* consequence: equal alternatives are not merged *)
 Lemma unhashable_literal_not_merged : unite [w_list1; w_list2] = VUnion [w_list1; w_list2] /\ veq w_list1 w_list2 = true.
@@ -76,18 +93,10 @@ Lemma guard_inhabited :
   unite_f 10 [a; b] = VUnion [w_int; w_list1; w_tup (VUnion [w_int; w_str]); w_td w_A; w_str].
 Proof. vm_compute. repeat split; reflexivity. Qed.
 
-(* ---- statements that are NOT proved here; they are decided only by the
+(* (associativity and substitution-identity are proved: UniteLaws.unite_assoc, SubstLaws.subst_id_on_closed)
+   ---- statements that are NOT proved here; they are decided only by the
    differential check (harness/c14.py evaluates them on the real code and the
    model on every generated case).  Kept as Definitions so the claim is visible. ---- *)
-Definition unite_assoc_statement : Prop :=
-  forall n a b c, flat a = true -> flat b = true -> flat c = true ->
-  fits n (VAnyUnreachable :: flatten a ++ flatten b ++ flatten c) = true ->
-  equiv_onb (E_f n) (VAnyUnreachable :: flatten a ++ flatten b ++ flatten c) = true ->
-  veq_f (S n) (unite_f n [unite_f n [a; b]; c]) (unite_f n [a; unite_f n [b; c]]) = true.
-
-Definition subst_id_on_closed_statement : Prop :=
-  forall n m v, closed v = true -> canonical n v -> subst_f n m v = v.
-
 Definition subst_eliminates_statement : Prop :=
   forall n m v tv r, lookup tv m = Some r -> (forall k x, In (k, x) m -> closed x = true) ->
   occurs tv (subst_f n m v) = false.
@@ -97,3 +106,24 @@ Definition subst_commutes_unite_statement : Prop :=
   equiv_onb (E_f n) (flatten a ++ flatten b ++ flatten (subst_f n m a) ++ flatten (subst_f n m b)) = true ->
   has_nested_annot (subst_f n m (unite_f n [a; b])) = false ->
   veq_f (S n) (subst_f n m (unite_f n [a; b])) (unite_f n [subst_f n m a; subst_f n m b]) = true.
+
+(* a closed canonical value with derived fields and a union: substitution leaves it unchanged *)
+Definition w_closed := VNode (TGeneric c_list) [w_tup (VUnion [w_int; w_str])].
+Lemma subst_closed_example :
+  closed w_closed = true /\ canonical 10 w_closed /\
+  subst_f 10 [(1%N, w_float)] w_closed = w_closed /\
+  subst_f 10 [(1%N, w_float)] (VNode (TGeneric c_list) [VNode (TTypeVar 1 false) []]) = VNode (TGeneric c_list) [w_float].
+Proof.
+  split; [reflexivity|]. split.
+  - cbn [canonical w_closed w_tup]. repeat split; try (intros _); vm_compute; reflexivity.
+  - split; vm_compute; reflexivity.
+Qed.
+
+(* associativity is inhabited non-trivially *)
+Lemma assoc_example :
+  let a := VUnion [w_int; w_list1] in let b := w_tup (VUnion [w_int; w_str]) in let c := VUnion [w_str; w_int; VAnyUnreachable] in
+  flat a = true /\ flat b = true /\ flat c = true /\
+  fits 10 (VAnyUnreachable :: flatten a ++ flatten b ++ flatten c) = true /\
+  equiv_onb (E_f 10) (VAnyUnreachable :: flatten a ++ flatten b ++ flatten c) = true /\
+  unite_f 10 [unite_f 10 [a; b]; c] = VUnion [w_int; w_list1; w_tup (VUnion [w_int; w_str]); w_str].
+Proof. vm_compute. repeat split; reflexivity. Qed.
